@@ -291,8 +291,14 @@ Definition resume_resp_step (c : conn) (i : N) (r : resp) : conn * list out :=
                    [OCloseReq (c_gen c) i; OStreamClosed i true])
               | RespConflict =>
                   (* the broker still holds the old incarnation of the stream: not a final answer; retry.Do
-                     writes the resume request again; whatever an earlier attempt answered is forgotten *)
-                  (c, [OResumeReq (c_gen c) i (s_down s)])
+                     runs the attempt again.  Upstream: the resume request is written again; whatever an
+                     earlier attempt answered is forgotten.  Downstream: the retried attempt first subscribes
+                     the alias again on the same wire connection - "already subscribed" - and the stream is
+                     closed with that error although the protocol asks for a retry (finding) *)
+                  if s_down s
+                  then (set_streams c (upd_s i (fun s => set_phase s (SClosed true false)) (c_streams c)),
+                        [OCloseReq (c_gen c) i; OStreamClosed i true])
+                  else (c, [OResumeReq (c_gen c) i (s_down s)])
               end
             else (c, [])
           else
